@@ -174,7 +174,11 @@ fn cmd_worker(args: &[String]) -> i32 {
                     let _ = l.flush();
                 }
             } else {
-                *other.entry(v.signature()).or_insert(0) += 1;
+                let n = other.entry(v.signature()).or_insert(0);
+                *n += 1;
+                if *n == 1 && std::env::var("RSIM_SHOW_OTHER").is_ok() {
+                    eprintln!("OTHER run={} {}", run, v.to_json());
+                }
             }
         }
         i += 1;
